@@ -12,12 +12,13 @@ from hypothesis import strategies as st
 
 LIT_PIECES = ['a', 'b', 'ab', 'abc', 'c', '/', '/', '/', '/', '1', '12', '-', '.', 'é', '日', 'le', 'end', 'x', 'to', '_', 'A']
 NAMES = ['a', 'b', 'c', 'id', 'name', 'x', 'y', 'pth', 'user_1', '_p', 'N']
-RE_POOL = ['to.', '[a-c]+', r'\d{2}', '[^/]+', 'pro.+?(?=l)', '(?:ab)+', 'a|ab', '[0-9a-f]{1,3}', '.+', 'a*']
+RE_POOL = ['to.', '[a-c]+', r'\d{2}', '[^/]+', 'pro.+?(?=l)', '(?:ab)+', 'a|ab', '[0-9a-f]{1,3}', '.+', 'a*',
+           r'-?\d+', r'-?\d+(\.\d+)?', r'\d+']      # the last three are spelled like the masks of the int / float filters (but convert nothing)
 
 
 RE_VALUES = {'to.': ['tom', 'tos', 'to/', 'tok'], '[a-c]+': ['abc', 'ab', 'a', 'cab'], r'\d{2}': ['12', '07'], '[^/]+': ['tom', 'a b', 'é', '12'],
              'pro.+?(?=l)': ['profi', 'pro/x', 'prol'], '(?:ab)+': ['ab', 'abab'], 'a|ab': ['a'], '[0-9a-f]{1,3}': ['ff', '0', 'a1b'], '.+': ['x', 'a/b'], 'a*': ['a', 'aa'],
-             '.+?(?=/end)': ['x', 'a/b']}
+             '.+?(?=/end)': ['x', 'a/b'], r'-?\d+': ['42', '-007', '0'], r'-?\d+(\.\d+)?': ['1.50', '3', '-0.0'], r'\d+': ['12', '007']}
 
 
 def merge(ast):
@@ -352,7 +353,7 @@ VALUE_POOL = {
     None: ['tom', '12', 'a', 'ab', 'abc', 'é', 'x.y', '-3', '', 'a b', 'a\rb', 'to', 'le', '日本', '1', 'b'],
     'int': ['12', '-3', '007', '0', '1', '-0', '99'],
     'float': ['1.5', '-2.0', '3', '0.0', '1.', '12.25', '1e3'],
-    're': ['tom', 'tos', 'to/', 'to', 'abc', 'ab', 'abab', '12', '123', 'profile', 'prol', 'a', 'aa', 'ff', 'x/y', ''],
+    're': ['tom', 'tos', 'to/', 'to', 'abc', 'ab', 'abab', '12', '123', 'profile', 'prol', 'a', 'aa', 'ff', 'x/y', '', '-007', '1.50', '42'],
     'path': ['a/b', 'this/path/to', 'x', 'a', 'end', 'a/end/b', 'le', ''],
 }
 
